@@ -40,13 +40,14 @@ SCRIPTS = {
         "if exp is None:\n    m = codes.PAT_TRACK.match(s)\n    exp = 1 if m.group('meters') and not m.group('msfx') else k[0]\n"
         "print(repr(s), k, 'expected rank', exp)\nsys.exit(0 if k[0] == exp else 1)\n"),
     'distance': _PRE + (
+        "def leg_range(m):\n    import re\n    g = m.group(2)\n    mm = re.fullmatch(r'(\\d+)(?:\\.(\\d+))?([hHKM]?)', g)\n    if not mm: return None\n    ip, fp, sfx = mm.group(1), mm.group(2), mm.group(3)\n    mult = 1 if sfx in ('', 'h', 'H') else 1000 if sfx == 'K' else 1609\n    if fp is None: return (mult * int(ip), mult * int(ip))\n    if mult == 1: return (int(ip), int(ip))\n    E_ = mult * int(ip + fp) // 10 ** len(fp)\n    return (E_ - 1, E_)\n"
         "import re\nk = athlib.discipline_sort_key(s)\nexp = None\n"
         "m = codes.PAT_HURDLES.match(s)\n"
         "if m: exp = int(m.group(1))\n"
-        "elif codes.PAT_RELAYS.match(s):\n    g = codes.PAT_RELAYS.match(s).group(2)\n"
-        "    if re.fullmatch(r'\\d+[hH]?', g): exp = int(g.rstrip('hH'))\n    elif re.fullmatch(r'\\d+K', g): exp = 1000 * int(g[:-1])\n"
+        "elif codes.PAT_RELAYS.match(s):\n    mr = codes.PAT_RELAYS.match(s)\n"
+        "    if mr.group(3) is not None and not (codes.PAT_THROWS.match(s) or codes.PAT_JUMPS.match(s)):\n        lr = leg_range(mr)\n        exp = None if lr is None else (lr[0], lr[1] + 1)\n"
         "elif codes.PAT_TRACK.match(s) and not (codes.PAT_THROWS.match(s) or codes.PAT_JUMPS.match(s)):\n    g = codes.PAT_TRACK.match(s).group('meters')\n"
-        "    if g and g.isdigit(): exp = int(g)\n    elif g and g.upper() == 'MILE': exp = (1609, 1610)\n    elif g: exp = (1609 * int(g[0]), 1610 * int(g[0]) + (int(g[0]) == 0))\n"
+        "    if g and g.isdigit(): exp = int(g)\n    elif g:\n        nd = re.match(r'\\d*', g).group()\n        n_ = int(nd) if nd else 1\n        exp = (1609 * n_, 1610 * n_ + (n_ == 0))\n"
         "print(repr(s), k, 'expected distance', exp)\n"
         "sys.exit(1 if exp is not None and (not (exp[0] <= k[1] < exp[1]) if isinstance(exp, tuple) else k[1] != exp) else 0)\n"),
     'field-order': _PRE + (
@@ -60,8 +61,11 @@ SCRIPTS = {
         "ok = k[1] >= 100000 or (len(t) == 8 + len(s) and t[0] == str(k[0]) and t[1] == '_' and t[7] == '_' and t[2:7].isdigit() and int(t[2:7]) == k[1] and t[8:] == s)\n"
         "print(repr(s), k, repr(t))\nsys.exit(0 if ok else 1)\n"),
     'relay-distance': _PRE + (
+        "def leg_range(m):\n    import re\n    g = m.group(2)\n    mm = re.fullmatch(r'(\\d+)(?:\\.(\\d+))?([hHKM]?)', g)\n    if not mm: return None\n    ip, fp, sfx = mm.group(1), mm.group(2), mm.group(3)\n    mult = 1 if sfx in ('', 'h', 'H') else 1000 if sfx == 'K' else 1609\n    if fp is None: return (mult * int(ip), mult * int(ip))\n    if mult == 1: return (int(ip), int(ip))\n    E_ = mult * int(ip + fp) // 10 ** len(fp)\n    return (E_ - 1, E_)\n"
         "m = codes.PAT_RELAYS.match(s)\nd = athlib.get_distance(s)\nleg = athlib.get_distance(m.group(2).upper()) if m and m.group(3) else None\n"
-        "print(repr(s), d, m and m.groups(), leg)\nsys.exit(1 if leg is not None and d != int(m.group(1)) * leg else 0)\n"),
+        "lr = leg_range(m) if m and m.group(3) else None\n"
+        "print(repr(s), 'relay', d, 'leg', leg, 'leg distance from the digits', lr)\n"
+        "sys.exit(1 if (lr is not None and (leg is None or not (lr[0] <= leg <= lr[1]))) or (leg is not None and d != int(m.group(1)) * leg) else 0)\n"),
     'pair-text-order': 'import sys, athlib\na = {a}\nb = {b}\n' + (
         "ka, kb = athlib.discipline_sort_key(a), athlib.discipline_sort_key(b)\nta, tb = athlib.text_discipline_sort_key(a), athlib.text_discipline_sort_key(b)\n"
         "print(repr(a), repr(b), ka, kb, ta, tb)\nsys.exit(1 if max(ka[1], kb[1]) < 100000 and ((ka < kb) != (ta < tb) or (ka == kb) != (ta == tb)) else 0)\n"),
@@ -78,6 +82,32 @@ SCRIPTS = {
 def _int_of(text):
     """SymInt/int of a digit (Sym)string"""
     return parse_int(text) if isinstance(text, SymStr) else int(text)
+
+
+def leg_metres(mr):
+    """distance of a numeric relay leg from the matched text: digits [. digits] [h H K M].  An integer, or ('range', lo, hi) terms when
+    the quantity has a fraction: int(1000 * float('2.3')) is 2299 in doubles, so the exact value E = floor(mult * t / 10**n) and E - 1 are both right"""
+    num = mr.group(3)
+    leg = mr.group(2)
+    sfx = leg[len(num):]
+    if len(sfx) == 0 or sfx == 'h' or sfx == 'H':
+        mult = 1
+    elif sfx == 'K':
+        mult = 1000
+    elif sfx == 'M':
+        mult = 1609
+    else:
+        return None
+    frac = mr.group(4)
+    if frac is None:
+        return mult * _int_of(num)
+    nfr = len(frac) - 1
+    ip = num[:len(num) - len(frac)]
+    t = _as_term(_int_of(ip)) * (10 ** nfr) + _as_term(_int_of(frac[1:]))
+    if mult == 1:
+        return _int_of(ip)
+    Ex = (mult * t) / (10 ** nfr)
+    return ('range', Ex - 1, Ex)
 
 
 def _as_term(v):
@@ -140,24 +170,23 @@ def body_single(template):
         if mh:
             expd = _int_of(mh.group(1))
         elif mr and not (mt or mj):
-            if mr.group(3) is not None and mr.group(4) is None:
-                leg = mr.group(2)
-                sfx = leg[len(mr.group(3)):]
-                if len(sfx) == 0 or sfx in ('h', 'H'):
-                    expd = _int_of(mr.group(3))
-                elif sfx == 'K':
-                    expd = 1000 * _int_of(mr.group(3))
+            if mr.group(3) is not None:
+                expd = leg_metres(mr)
         elif mk and not (mt or mj):
             g = mk.group('meters')
             if g is not None:
                 gc = SymStr.lift(g).cells
                 if all(classify(c) == 'digit' for c in gc):
                     expd = _int_of(g)
-                elif len(gc) == 4:
-                    expd = ('mile', 1)
                 else:
-                    expd = ('mile', _int_of(g[0]))
-        if isinstance(expd, tuple):
+                    # N MILE: the count is the whole run of leading digits (none: one mile) - read from the text, not the way the library reads it
+                    nd = 0
+                    while nd < len(gc) and classify(gc[nd]) == 'digit':
+                        nd += 1
+                    expd = ('mile', _int_of(g[:nd]) if nd else 1)
+        if isinstance(expd, tuple) and expd[0] == 'range':
+            eng.check(z3.And(_as_term(dist) >= expd[1], _as_term(dist) <= expd[2]), 'distance')
+        elif isinstance(expd, tuple):
             n = _as_term(expd[1])
             eng.check(z3.And(_as_term(dist) >= 1609 * n, _as_term(dist) < 1610 * n + z3.If(n == 0, 1, 0)), 'distance')
         elif expd is not None:
@@ -200,10 +229,21 @@ def body_single(template):
         # ---- relay distance
         if mr and mr.group(3) is not None:
             d = out['get_distance']
+            # the leg distance is read from the matched digits (metres, K = kilometres, M = miles of 1609 m), not through the library
+            # (two linear steps instead of one product of two symbolic integers: the library's own leg estimate against the digits,
+            # and the relay estimate against legs x that estimate)
+            lm = leg_metres(mr)
             try:
                 legd = utils.get_distance(mr.group(2).upper())
             except Exception as e:
                 raise hc.PathFail('raises:get_distance', 'leg')
+            if lm is not None:
+                if legd is None:
+                    raise hc.PathFail('relay-distance', 'no distance for a numeric leg')
+                if isinstance(lm, tuple):
+                    eng.check(z3.And(_as_term(legd) >= lm[1], _as_term(legd) <= lm[2]), 'relay-distance')
+                else:
+                    eng.check(_as_term(legd) == _as_term(lm), 'relay-distance')
             if legd is not None:
                 legs = _int_of(mr.group(1))
                 if d is None:
